@@ -62,6 +62,12 @@ type P9 struct {
 	M map[string]int
 }
 
+type P11 struct {
+	Lo   int
+	Dash int `json:"-,"` // the JSON key is "-": NOT omitted (only the bare tag "-" omits a field)
+	Hi   int `json:"hi,omitempty"`
+}
+
 type P10 struct {
 	R json.RawMessage
 	O Opt
@@ -102,6 +108,7 @@ func c15ArgTypes() []argType {
 	out = append(out, st("P8", P8{}, "A")...)
 	out = append(out, st("P9", P9{}, "A", "M")...)
 	out = append(out, st("P10", P10{}, "R", "O", "N")...)
+	out = append(out, st("P11", P11{}, "Lo", "-", "hi")...)
 	out = append(out, argType{"**P1", reflect.PointerTo(reflect.PointerTo(reflect.TypeOf(P1{}))), nil})
 	return out
 }
@@ -228,7 +235,7 @@ func c15ParamsFor(at argType) []string {
 	ps := []string{"", "null", "{}", "[]", "[1]", `[1,"s"]`, `[1,"s",3]`, `["s",1]`, `[null,null]`, `[null]`, "5", `"s"`, "true",
 		`{"A":1,"B":"s"}`, `{"a":1,"b":"s"}`, `{"A":1,"Z":9}`, `{"A":"wrong"}`, `{"x":1,"y":"s"}`, `{"X":1}`, `{"C":3,"A":1}`, `{"in":{"A":1},"C":2}`,
 		`{"B":"s","a":5}`, `{"N":{"A":1,"B":"b"},"P":{"A":2},"L":[1,2]}`, `[{"A":1},null,[3]]`, `{"A":7,"M":{"k":1}}`, `[7,{"k":1}]`, `[1,2]`, `{"k":1}`, `[[1]]`, `{"Skip":1,"A":1}`,
-		`[null,null,1]`, `[{"k":1},5,1]`, `{"R":null,"O":null,"N":1}`, `[null,"s",1]`}
+		`[null,null,1]`, `[{"k":1},5,1]`, `[1,2,3]`, `[7,9]`, `{"Lo":1,"-":2,"hi":3}`, `{"R":null,"O":null,"N":1}`, `[null,"s",1]`}
 	return ps
 }
 
